@@ -29,6 +29,7 @@ def run(res, tier, seed):
     for mode, n, reps in (('reduce', 1 if not thorough else 6, 4), ('det', 2 if not thorough else 20, 2), ('scan', 2 if not thorough else 20, 2), ('sort', 6 if not thorough else 120, 2)):
         for r in range(reps):
             jobs.append((mode, n, r))
+    jobs.append(('sweep', 1 if not thorough else 2, 0))          # parallel_sort's pre-test: every single-inversion input of ~50 (thorough ~200) sizes, natively
     cmds = []; tfs = []
     for mode, n, r in jobs:
         tf = os.path.join(vlib.BUILD, 'traces', 'c06-%s-%d-%d.ndjson' % (mode, r, os.getpid())); tfs.append(tf)
